@@ -58,6 +58,9 @@ func joinU64(xs []uint64) string {
 // scribble overwrites a buffer the harness handed to the code under test: a value that was kept by
 // reference instead of being copied shows up as 0x58 bytes in what is stored or sent later.
 func scribble(b []byte) {
+	// the spare capacity is the caller's as well (an append within capacity writes there): for a slice that is a
+	// window into somebody else's memory - even an empty one - this is where the damage shows
+	b = b[:cap(b)]
 	for i := range b {
 		b[i] = 0x58
 	}
